@@ -129,12 +129,7 @@ func c03Oracle(w *c03World) {
 			w.fail("c03:lost-uncounted", fmt.Sprintf("generation %d: %d chunk(s) %v are neither confirmed nor on disk after Destroy, but only %d counted as dropped (handed back: %v, quota %d, dir usable %t)",
 				gi+1, lost, lostIDs, dropped, g.HandedBack, g.MaxB, g.DirOK))
 		}
-		if dropped > lost+kept {
-			w.fail("c03:dropped-overcount", fmt.Sprintf("generation %d: %d counted dropped but only %d chunks are unaccounted and %d kept", gi+1, dropped, lost, kept))
-		}
-		if int(g.MetAtEnd[6]) != len(g.Confirmed) {
-			w.fail("c03:consumed-count", fmt.Sprintf("generation %d: consumed_chunks_total %d, consumer confirmed %d", gi+1, g.MetAtEnd[6], len(g.Confirmed)))
-		}
+		_ = kept // (a counter that counts more than was lost, or consumed_chunks_total, are metric questions: C19)
 	}
 }
 
